@@ -717,6 +717,26 @@ pub fn grid_v4(reduced: bool) -> Vec<c4::Packet> {
             }
         }
     }
+    if !reduced {
+        // every packet id 1..=65535 in every id-carrying packet type
+        for id in 1..=u16::MAX {
+            g.push(c4::Packet::PubAck(c4::PubAck::new(id)));
+            g.push(c4::Packet::PubRec(c4::PubRec::new(id)));
+            g.push(c4::Packet::PubRel(c4::PubRel::new(id)));
+            g.push(c4::Packet::PubComp(c4::PubComp::new(id)));
+            g.push(c4::Packet::UnsubAck(c4::UnsubAck::new(id)));
+            g.push(c4::Packet::SubAck(c4::SubAck::new(id, vec![c4::SubscribeReasonCode::Success(c4b::QoS::AtLeastOnce)])));
+            let mut s = c4::Subscribe::new("a", c4b::QoS::AtLeastOnce);
+            s.pkid = id;
+            g.push(c4::Packet::Subscribe(s));
+            let mut u = c4::Unsubscribe::new("a");
+            u.pkid = id;
+            g.push(c4::Packet::Unsubscribe(u));
+            let mut p = c4::Publish::new("a", c4b::QoS::ExactlyOnce, vec![1u8]);
+            p.pkid = id;
+            g.push(c4::Packet::Publish(p));
+        }
+    }
     g.push(c4::Packet::PingReq);
     g.push(c4::Packet::PingResp);
     g.push(c4::Packet::Disconnect);
@@ -1003,6 +1023,26 @@ pub fn grid_v5(reduced: bool) -> Vec<c5::Packet> {
             g.push(c5::Packet::Disconnect(c5::Disconnect { reason_code: r, properties: props }));
         }
     }
+    if !reduced {
+        // every packet id 1..=65535 in every id-carrying packet type
+        for id in 1..=u16::MAX {
+            g.push(c5::Packet::PubAck(c5::PubAck { pkid: id, reason: c5::PubAckReason::Success, properties: None }));
+            g.push(c5::Packet::PubRec(c5::PubRec { pkid: id, reason: c5::PubRecReason::UnspecifiedError, properties: None }));
+            g.push(c5::Packet::PubRel(c5::PubRel { pkid: id, reason: c5::PubRelReason::Success, properties: None }));
+            g.push(c5::Packet::PubComp(c5::PubComp { pkid: id, reason: c5::PubCompReason::PacketIdentifierNotFound, properties: None }));
+            g.push(c5::Packet::SubAck(c5::SubAck { pkid: id, return_codes: vec![c5::SubscribeReasonCode::Success(c5b::QoS::AtLeastOnce)], properties: None }));
+            g.push(c5::Packet::UnsubAck(c5::UnsubAck { pkid: id, reasons: vec![c5::UnsubAckReason::Success], properties: None }));
+            let mut s = c5::Subscribe::new(c5::Filter::new("a", c5b::QoS::AtMostOnce), None);
+            s.pkid = id;
+            g.push(c5::Packet::Subscribe(s));
+            let mut u = c5::Unsubscribe::new("a", None);
+            u.pkid = id;
+            g.push(c5::Packet::Unsubscribe(u));
+            let mut p = c5::Publish::new("a", c5b::QoS::ExactlyOnce, vec![1u8], None);
+            p.pkid = id;
+            g.push(c5::Packet::Publish(p));
+        }
+    }
     g.push(c5::Packet::PingReq(c5::PingReq));
     g.push(c5::Packet::PingResp(c5::PingResp));
     g
@@ -1193,7 +1233,7 @@ pub fn run_c04(tier: Tier) -> i32 {
     ev.set("evaluations", json!(evals));
     ev.set("distinct_nontrivial", json!(ctx.nontrivial.load(Ordering::Relaxed)));
     ev.set("grid", json!({"client_v4_packets": g4.len(), "client_v5_packets": g5.len(), "broker_native_shapes": shapes.len()}));
-    ev.set("rule", json!("grid = cartesian products of small per-field domains for every packet type (flags, ids {1,2,255,256,65535}, strings of 0/1/127/128/65535 bytes, payloads placing the remaining length at every width boundary, every subset of PUBLISH / CONNECT / will / DISCONNECT properties, CONNACK property singletons+pairs+all, 1-3 filters / codes); each value: encode, size, width, decode with sentinel, client->broker->client equality, broker own round trip; non-trivial = packets that round-trip in their own codec"));
+    ev.set("rule", json!("grid = cartesian products of small per-field domains for every packet type (flags, ids {1,2,255,256,65535} and in the thorough tier every id 1..=65535 in every id-carrying packet type, strings of 0/1/127/128/65535 bytes, payloads placing the remaining length at every width boundary, every subset of PUBLISH / CONNECT / will / DISCONNECT properties, CONNACK property singletons+pairs+all, 1-3 filters / codes); each value: encode, size, width, decode with sentinel, client->broker->client equality, broker own round trip; non-trivial = packets that round-trip in their own codec"));
     ev.sample(json!(format!("{:?}", g4[g4.len() / 2]).chars().take(200).collect::<String>()));
     ev.sample(json!(format!("{:?}", g5[g5.len() / 3]).chars().take(300).collect::<String>()));
     ev.assumptions = vec!["values outside the grid are not covered; equality is the codec's own PartialEq on the client-side structs after a full loop through the broker".into()];
